@@ -1,6 +1,8 @@
 #pragma once
 #include <string>
 #include <memory>
+#include <vector>
+#include <unordered_set>
 
 #include "type.h"
 
@@ -83,6 +85,36 @@ namespace sqf::runtime
         virtual ::sqf::runtime::type type() const = 0;
 
         virtual std::size_t hash() const = 0;
+
+        /// <summary>
+        /// Containers (arrays, hashmaps, ...) add the data of every value they hold.
+        /// Used to keep a container from containing itself, directly or through
+        /// other containers of any kind.
+        /// </summary>
+        virtual void contained(std::vector<std::shared_ptr<data>>& out) const {}
+
+        /// <summary>
+        /// Whether target is held by this, directly or through the containers this holds.
+        /// </summary>
+        bool contains(const data* target) const
+        {
+            std::vector<std::shared_ptr<data>> open;
+            std::unordered_set<const data*> seen;
+            contained(open);
+            while (!open.empty())
+            {
+                auto current = open.back();
+                open.pop_back();
+                if (current.get() == target) { return true; }
+                auto mark = open.size();
+                current->contained(open);
+                if (open.size() != mark && !seen.insert(current.get()).second)
+                { // a container that was expanded before: do not expand it again
+                    open.resize(mark);
+                }
+            }
+            return false;
+        }
     };
 }
 namespace std
